@@ -116,6 +116,17 @@ pub fn check(case: &C10Case, st: &mut Stats) -> Verdict {
             let mut v = d.clone();
             v.reverse();
             lists.push(("disclosures reversed", v));
+            // one disclosure re-encoded: same or nearly the same bytes, other base64 text
+            let variants = crate::mutate::reencode_variants(&d[i]);
+            if !variants.is_empty() {
+                let (_, t) = &variants[ch.pick(variants.len())];
+                let mut v = d.clone();
+                v[i] = t.clone();
+                lists.push(("one disclosure re-encoded (padding / alphabet / trailing bits / truncation)", v));
+            }
+            let mut v = d.clone();
+            v[i] = format!("{} ", d[i]);
+            lists.push(("one disclosure with a trailing space", v));
         }
         let mut v = d.clone();
         v.push(b64e(br#"["salt", "iss", "https://attacker.example"]"#));
